@@ -1634,6 +1634,42 @@ def direct_cases(ctx: Ctx, drv: Optional[Driver], n: int) -> None:
         ctx.count(f'direct-{kind}:' + ('ok' if kind == 'dec1' and not (isinstance(want, dict) and want.get('a', [''])[0] == '!raise')
                                      else 'raise' if kind == 'dec1' else 'ok' if 'ok' in want else want['error']))
 
+# witness of theorem `iter_collapsed_fifo_witness` (Props/C05.lean): content model, content, the successive states
+# of the visitor that the theorem assumes, the order of the values that must come out
+FIFO_XSD = ('<xs:schema xmlns:xs="http://www.w3.org/2001/XMLSchema"><xs:element name="r"><xs:complexType><xs:sequence>'
+            '<xs:sequence maxOccurs="6"><xs:element name="a" type="xs:int"/><xs:element name="b" type="xs:int" '
+            'minOccurs="0"/></xs:sequence><xs:element name="c" type="xs:int"/></xs:sequence></xs:complexType>'
+            '</xs:element></xs:schema>')
+FIFO_CONTENT = [('a', 1), ('a', 2), ('a', 3), ('a', 4), ('a', 5), ('c', 9)]
+FIFO_SCRIPT = [['a'], ['b']] * 5 + [['a'], ['c'], None]
+
+
+def fifo_witness(ctx: Ctx, drv: Optional[Driver]) -> None:
+    """the theorem's witness on the real `iter_collapsed_content` with the real ModelVisitor: the visitor behaves
+    as the theorem assumes and the buffered same-named values come back first in, first out"""
+    import xmlschema
+    group = xmlschema.XMLSchema(FIFO_XSD).elements['r'].type.model_group
+    script, out = run_order('iter_collapsed_content', list(FIFO_CONTENT), group, ['a', 'b', 'c'])
+    case = {'witness': 'iter_collapsed_fifo_witness', 'helper': 'iter_collapsed_content', 'form': 'list',
+            'variant': 'as-encoded', 'element': 'r', 'xsd': FIFO_XSD,
+            'xml': '<r><a>1</a><a>2</a><a>3</a><a>4</a><a>5</a><c>9</c></r>',
+            'content': [[k, L.canon(v)] for k, v in FIFO_CONTENT]}
+    ctx.case(case, True, tag='witness')
+    ctx.traces += 1
+    if script != FIFO_SCRIPT:
+        ctx.mismatch('witness of iter_collapsed_fifo_witness: the real ModelVisitor takes other states', case, script,
+                     FIFO_SCRIPT)
+    if 'ok' not in out or not stable_order(case['content'], out['ok']):
+        ctx.failure('iter_collapsed_content changed the relative order of same-named entries of a valid content',
+                    case, {'output': out})
+    if drv is not None:
+        items = [{'n': [k, False, L.canon(v)]} for k, v in FIFO_CONTENT]
+        ans = drv.query([{'op': 'collapsed', 'script': script, 'content': items}])[0]
+        ctx.traces += 1
+        if ans != out:
+            ctx.mismatch('iter_collapsed_content (witness)', case, out, ans)
+
+
 # ------------------------------------------------------------------------------------ run
 
 def build_units(ctx: Ctx, n_schemas: int, n_inst: int, nested_rate: float = 0.8):
@@ -1759,6 +1795,7 @@ def run(ctx: Ctx, driver_ok: bool) -> None:
     from harness.props import c01 as _c01
     _c01.encoder_family(ctx, Driver('drv_c01') if driver_ok else None, ctx.pick(40, 300), known_fid='C05-F10')
     direct_cases(ctx, drv, ctx.pick(600, 6000))
+    fifo_witness(ctx, drv)
     explore(ctx, drv, ctx.pick(50, 250), ctx.pick(3, 5), ctx.pick(4, 6))
     ctx.extra['explanation'] = ('seeded random schemas x valid instances (each also re-serialised with random nested '
                                 'namespace (re)declarations) x 5 converter classes x options; per case: '
@@ -1772,11 +1809,14 @@ def run(ctx: Ctx, driver_ok: bool) -> None:
     def rank(f):
         c = f.get('case')
         if isinstance(c, dict) and 'xsd' in c and 'xml' in c:
-            return 1 if 'mutation' in c else 0
-        return 2
+            if 'mutation' in c:
+                return 2
+            return 0 if 'converter' in c else 1      # a document whose round trip fails, then helper / witness cases
+        return 3
     ctx.failures.sort(key=rank)
     ctx.extra['converters_modelled_in_lean'] = list(MODELLED)
-    ctx.extra['counterexample_witnesses_replayed_on_real_code'] = [w[0] for w in WITNESSES]
+    ctx.extra['counterexample_witnesses_replayed_on_real_code'] = [w[0] for w in WITNESSES] + \
+        ['iter_collapsed_fifo_witness']
     ctx.extra['converters_differential_only'] = [c for c in conv_classes() if c not in MODELLED]
 
 
